@@ -570,7 +570,50 @@ def h_einsum(ip, st, args, kw, node):
             return Tup([r * P(x) for r, x in zip(rows, b.items)], 'vec')
         if spec == 'ij,j->ij' and isinstance(b, Poly) and all(_arrayish(r) for r in rows):
             return Tup([r * b for r in rows], 'vec')
+    if args and not isinstance(args[0], Const) and len(args) >= 2 and not kw:
+        # operand / sublist form: einsum(a, [0, 1, 2], b, [0], [1, 2]) is einsum('ijk,i->jk', a, b)
+        ops, subs, rest = [], [], list(args)
+        def letters(t):
+            if isinstance(t, Tup) and all(isinstance(x, Poly) and x.const_value() is not None and 0 <= x.const_value() < 17
+                                          for x in t.items):
+                return ''.join(chr(ord('i') + int(x.const_value())) for x in t.items)
+            return None
+        while len(rest) >= 2 and letters(rest[1]) is not None and not (isinstance(rest[0], Tup) and letters(rest[0]) is not None
+                                                                       and len(rest) == 1):
+            ops.append(rest[0])
+            subs.append(letters(rest[1]))
+            rest = rest[2:]
+        out = None
+        if len(rest) == 1 and letters(rest[0]) is not None:
+            out, rest = letters(rest[0]), []
+        if ops and not rest:
+            spec = ','.join(subs) + ('->' + out if out is not None else '')
+            return h_generic('einsum')(ip, st, [Const(spec)] + ops, kw, node)
     return h_generic('einsum')(ip, st, args, kw, node)
+
+
+def h_expand_dims(ip, st, args, kw, node):
+    # np.expand_dims(x, 0) is x[np.newaxis, ...]
+    ax = kw.get('axis', args[1] if len(args) > 1 else None)
+    if args and isinstance(args[0], Poly) and isinstance(ax, Poly) and ax.const_value() == 0:
+        return nf.index(args[0], Tup([NONE, nf.ELLIPSIS]))
+    return h_generic('numpy.expand_dims')(ip, st, args, kw, node)
+
+
+HANDLERS['numpy.expand_dims'] = h_expand_dims
+
+
+def h_arctan2(ip, st, args, kw, node):
+    # arctan2(z.imag, z.real) is the argument of z
+    if len(args) == 2 and not kw and all(isinstance(a, Poly) for a in args):
+        ya, xa = args[0].single_atom(), args[1].single_atom()
+        if ya is not None and xa is not None and ya[0] == 'app' and xa[0] == 'app' and ya[1] == 'imag' and xa[1] == 'real' \
+                and ya[2] and xa[2] and ya[2][0] == xa[2][0]:
+            return unary('angle', ya[2][0])
+    return h_generic('numpy.arctan2')(ip, st, args, kw, node)
+
+
+HANDLERS['numpy.arctan2'] = h_arctan2
 
 
 def h_where(ip, st, args, kw, node):
